@@ -10,7 +10,9 @@ def region_runs(q_plain, q_asan, t_plain, t_asan, exhaustive=True):
     ]
     if exhaustive:
         runs.append(dict(name="grid4x3-exhaustive", monitor="mon_region", flavour="plain", config="exhaustive",
-                         cases={"quick": 4096, "thorough": 4096}, tiers=("thorough",)))
+                         cases={"quick": 4096, "thorough": 4096}, tiers=("thorough",), noscale=True))
+        runs.append(dict(name="grid3x3-exhaustive", monitor="mon_region", flavour="plain", config="exhaustive3x3",
+                         cases={"quick": 512, "thorough": 512}, tiers=("quick",), noscale=True))
     return runs
 
 
@@ -65,10 +67,10 @@ PROPS = {
              "(windows at the origin, straddling 0, flush against the 16- and 32-bit limits, random); after every operation "
              "all 2304 window points + a ring outside are queried with contains_point and compared with the bitmap; "
              "evaluations = point queries; a cell = (operation, width, aliasing pattern, resulting non-empty point set) counted by hash; "
-             "thorough adds ALL 4096 regions on a 4x3 grid x all ordered pairs x {union,intersect,subtract} x 3 aliasing patterns and inverse in all 60 boxes",
-        floors={"any": {"ops": 1000, "labels:ops_seen": 40}},
-        exhaustive={"thorough": True},
-        exhaustive_note="exhaustive only for the 4x3-grid sub-run (config 'exhaustive'); the random programs are a sample",
+             "plus an exhaustive small scope: ALL regions on a grid (quick: the 512 regions of a 3x3 grid, thorough: the 4096 of a 4x3 grid) x all ordered pairs x {union,intersect,subtract} x 3 aliasing patterns, 32- and 16-bit, and inverse in every box of the grid",
+        floors={"any": {"ops": 1000, "labels:ops_seen": 40, "exhaustive_A_regions": 512}},
+        exhaustive={"quick": True, "thorough": True},
+        exhaustive_note="exhaustive only for the grid sub-run (3x3 in the quick tier, 4x3 in the thorough tier); the random programs are a sample",
         assumptions=["bitmap model written from the set-algebra definitions", "contains_point is the observation channel (its own correctness is C07; list-level agreement is checked by C06)",
                      "no allocation failure occurs (failures are C15)"],
     ),
